@@ -11,6 +11,9 @@
      Fixes    (C11) source ranges of the LintFix anchors (and SourceFix slices) returned by BaseRule.crawl:
               the "source ranges that the applied fixes edit" (a FixPatch of an untemplated file spans the
               whole file, so patch ranges alone would make the clause vacuous there)
+     Fixed    (C11) output text of fix_string and the source ranges of the merged patches, recorded without
+              judging the patch pipeline (that is C30's): C11 traces carry this instead of Patches/Merge/Rebuild so
+              that the byte/character clauses of Write are always reached, also on templated files
      Write    (C11) the bytes on disk afterwards, same projection, and whether inode / mtime / bytes changed
    Texts are sequences of code points; positions are Python offsets into the trace's source text `src`
    (TemplatedFile.source_str).  The trace's `lay` is the raw-slice layout <<a, b, type>> with types mapped to
@@ -33,7 +36,7 @@ N   == Len(Src)
 LayOf(t) == [k \in 1..Len(t.lay) |-> [a |-> t.lay[k][1], b |-> t.lay[k][2], ty |-> t.lay[k][3]]]
 PE(p)    == [s |-> <<p[1], p[2]>>, t |-> p[3], cat |-> IF p[4] = "source" THEN "source" ELSE "lit"]
 PSet(ps) == {PE(ps[i]) : i \in 1..Len(ps)}
-St0      == [pool |-> {}, merged |-> <<>>, applied |-> {}, out |-> <<>>, rebuilt |-> FALSE, units |-> <<>>, bom |-> <<>>, ranges |-> {}]
+St0      == [pool |-> {}, merged |-> <<>>, applied |-> {}, out |-> <<>>, rebuilt |-> FALSE, units |-> <<>>, bom |-> <<>>, ranges |-> {}, pranges |-> {}]
 
 ---------------------------------------------------------------------------------
 (* text-level application of a valid set of edits *)
@@ -116,8 +119,8 @@ Lead(E, R)  == E = <<>> \/ Touched(E[1], R) \/ BreakAt(0, R)
 Trail(E, R) == E = <<>> \/ Touched(E[Len(E)], R) \/ BreakAt(E[Len(E)].hi, R)
 
 StartsAt(t, m, s) == m >= 1 /\ m + Len(s) - 1 <= Len(t) /\ SubSeq(t, m, m + Len(s) - 1) = s
-RECURSIVE Find(_, _, _)                                 \* leftmost occurrence of s in t at or after pos; 0 = none
-Find(t, pos, s) == IF pos + Len(s) - 1 > Len(t) THEN 0 ELSE IF StartsAt(t, pos, s) THEN pos ELSE Find(t, pos + 1, s)
+\* leftmost occurrence of s in t at or after pos; 0 = none
+Find(t, pos, s) == LET ms == {m \in pos..(Len(t) - Len(s) + 1) : StartsAt(t, m, s)} IN IF ms = {} THEN 0 ELSE Min(ms)
 RECURSIVE MatchFrom(_, _, _, _, _)                      \* 0 = all stretches found, else index of the first one that is not
 MatchFrom(segs, k, t, pos, trail) ==
    IF k > Len(segs) THEN (IF trail \/ pos = Len(t) + 1 THEN 0 ELSE Len(segs) + 1)
@@ -162,12 +165,13 @@ Clause ==
     [] Ev.ev = "Load" ->
          IF T.src # <<>> /\ FlatC(NormU(UnitsOf(Ev.units), 1, <<>>), 1, <<>>) # Src THEN "LoadedTextIsNormalisedFile" ELSE "ok"
     [] Ev.ev = "Fixes" -> "ok"
+    [] Ev.ev = "Fixed" -> "ok"
     [] Ev.ev = "Write" ->
          LET changed == st.rebuilt /\ st.out # Src
              IU  == NormU(st.units, 1, <<>>)
              OU  == NormU(UnitsOf(Ev.units), 1, <<>>)
              txt == FlatC(OU, 1, <<>>)
-             PR  == {e.s : e \in st.applied}                 \* ranges of the applied patches
+             PR  == st.pranges                                \* ranges of the applied / merged patches
              FR  == st.ranges                                 \* source ranges of the fixes the rules returned
              EU  == UnitElems(IU)
              OK  == [k \in 1..Len(OU) |-> UKey(OU[k])]
@@ -187,7 +191,10 @@ Clause ==
 
 Upd == CASE Ev.ev = "Patches" -> [st EXCEPT !.pool = @ \cup PSet(Ev.patches)]
          [] Ev.ev = "Merge"   -> [st EXCEPT !.merged = Ev.merged]
-         [] Ev.ev = "Rebuild" -> [st EXCEPT !.applied = Applied(Ev.slices, Ev.out)[2], !.out = Ev.out, !.rebuilt = TRUE]
+         [] Ev.ev = "Rebuild" -> LET A == Applied(Ev.slices, Ev.out)[2] IN
+                                 [st EXCEPT !.applied = A, !.out = Ev.out, !.rebuilt = TRUE, !.pranges = {e.s : e \in A}]
+         [] Ev.ev = "Fixed"   -> [st EXCEPT !.out = Ev.out, !.rebuilt = TRUE,
+                                            !.pranges = {<<Ev.pranges[i][1], Ev.pranges[i][2]>> : i \in 1..Len(Ev.pranges)}]
          [] Ev.ev = "Load"    -> [st EXCEPT !.units = UnitsOf(Ev.units), !.bom = Ev.bom]
          [] Ev.ev = "Fixes"   -> [st EXCEPT !.ranges = @ \cup {<<Ev.ranges[i][1], Ev.ranges[i][2]>> : i \in 1..Len(Ev.ranges)}]
          [] OTHER -> st
